@@ -118,9 +118,15 @@ def run(run):
                 lens = [v for v in vals if len(v) == 8]
                 ln = int.from_bytes(bytes(lens[-1]), "little") if lens else len(buf)
                 data = bytes(buf[:ln]) if name != "proof_from_bytes" else bytes(buf)
+                whole = [v for v in vals if len(v) >= 1008]
+                if name == "proof_from_bytes" and whole:
+                    data = bytes(whole[0][:1008])   # the array is printed as one vector
+                if name == "proof_from_bytes" and len(data) < 1008:
+                    data = data + bytes(1008 - len(data))
                 rb = fw.run_driver(fw.REAL_BIN, ["decode", name, data.hex()], run.seed)
                 detail.update({"bytes": data.hex(), "real_outcome": rb["outputs"]["outcome"]})
-                reproduced = rb["outputs"]["outcome"] == "PANIC"
+                reproduced = rb["outputs"]["outcome"] == "PANIC" or \
+                    (name == "proof_from_bytes" and rb["outputs"]["outcome"] == "Ok(noncanonical)")
             info = {"property": "C17", "harness": name, "failed_checks": rec["failed_checks"], "replay_detail": detail,
                     "replayed": reproduced}
             d = os.path.join(fw.OUT, "cex")
@@ -131,8 +137,8 @@ def run(run):
                 run.violations.append((f"kani/{name}", path))
             else:
                 run.inconclusive.append(f"kani/{name}: FAILED ({rec['failed_checks'][:2]}) but the playback values do "
-                                        f"not panic on the real build ({detail.get('real_outcome')}): a contract body "
-                                        "is too liberal or the failure is not a panic")
+                                        f"not panic (nor decode non-canonically) on the real build "
+                                        f"({detail.get('real_outcome')}): a contract body is too liberal")
         else:
             run.inconclusive.append(f"kani/{name}: {status} after {secs:.0f}s")
     run.extra["harnesses"] = results
